@@ -170,8 +170,10 @@ def _engine_run(ch, callers, offsets, R, window, faulty_verbs, fixed=None, noise
                 if not any(a[1] == who and enter[who] <= a[0] <= done_at[who] + 1e-9 for a in arrived):
                     why = ("phantom-reply", f"{who}: get returned a reply although none arrived during the call")
             else:
-                # a reply that arrived well inside one of its waits must have been taken
-                for w in myw:
+                # a reply that arrived well inside one of its waits must have been taken - judged with at most one
+                # timer deviation (< half a polling interval of jitter): with wake-up jitter close to a whole polling interval the unhandled consumer may legitimately
+                # discard a reply before the waiter's next poll (the statement allows reporting failure then)
+                for w in (myw if sum(1 for k_, n_, c in ch.trace if k_ == "timer" and c) <= 1 else ()):
                     if any(a[1] == who and w[2] <= a[0] <= w[3] - 0.35 for a in arrived):
                         why = ("missed-reply", f"{who}: reported failure although a reply arrived during its wait "
                                                f"[{w[2]-t_base:.2f},{w[3]-t_base:.2f}]")
@@ -301,7 +303,9 @@ def _full_run(ch, window, scenario):
             if why is None and a[5] == b[5] and b[2] < a[3] - 1e-9:
                 why = ("overlap", f"two requests outstanding on one connection: {a[0]} ({a[1]}) waits "
                                   f"[{a[2]-t_base:.2f},{a[3]-t_base:.2f}] and {b[0]} ({b[1]}) from {b[2]-t_base:.2f}")
-        if why is None and any(w[4] is False for w in hw):
+        # (with two deviations the accumulated wake-up jitter approaches a whole polling interval and the unhandled
+        #  consumer may legitimately discard a reply before its waiter polls again - not judged then)
+        if why is None and sum(1 for k_, n_, c in ch.trace if k_ == "timer" and c) <= 1 and any(w[4] is False for w in hw):
             bad = [w for w in hw if w[4] is False][0]
             why = ("timeout", f"{bad[0]} ({bad[1]}) timed out on a fault-free link")
         if why is None and (lib.LOG.records or rig.loop.exceptions):
@@ -468,7 +472,7 @@ def run(ctx):
     fe = 0
     for scenario in ("pump-on", "pump-on-off", "three-commands"):
         st = explore.explore(ctx, _full_job, (0.049, scenario), bound=1 if ctx.quick else 2, label=f"full-stack {scenario}",
-                             max_execs=4000 if ctx.quick else 120000)
+                             max_execs=4000 if ctx.quick else 30000)
         fe += st["executions"]
         states.update(st["obs"])
         explore.fold_stats(ctx, st, prefix="fullstack_")
